@@ -18,6 +18,39 @@ import (
 
 type Step struct {
 	Post string `json:"postprocessor"` // none | jsonpath | xpath | header | header_substr | assert
+	// header_substr: the arguments (one or two integers, negative ones count from the end of the value) of the
+	// substr() modifier of each extracted variable; empty = the fixed pair substr(6), substr(2,5).
+	Substr [][]int `json:"substr,omitempty"`
+}
+
+const goodToken = "abcdefghijklmnop" // X-Token of a well-behaved response (Beh.resp)
+
+// an index for substr(): small / beyond the usual value, from the start / from the end
+func genSubstrIdx(t *rapid.T) int {
+	switch rapid.IntRange(0, 3).Draw(t, "idxClass") {
+	case 0:
+		return rapid.IntRange(0, 8).Draw(t, "idx")
+	case 1:
+		return rapid.IntRange(9, 40).Draw(t, "idx")
+	case 2:
+		return -rapid.IntRange(1, 8).Draw(t, "idx")
+	default:
+		return -rapid.IntRange(9, 40).Draw(t, "idx")
+	}
+}
+
+func genStep(t *rapid.T) Step {
+	s := Step{Post: rapid.SampledFrom(postKinds).Draw(t, "post")}
+	if s.Post == "header_substr" && rapid.IntRange(0, 3).Draw(t, "substrGen") != 0 {
+		for m, k := 0, rapid.IntRange(1, 2).Draw(t, "substrVars"); m < k; m++ {
+			args := []int{genSubstrIdx(t)}
+			if rapid.Bool().Draw(t, "substrTwoArgs") {
+				args = append(args, genSubstrIdx(t))
+			}
+			s.Substr = append(s.Substr, args)
+		}
+	}
+	return s
 }
 
 type ScenCase struct {
@@ -37,7 +70,7 @@ func genScen(t *rapid.T) ScenCase {
 	c := ScenCase{}
 	k := rapid.IntRange(1, 4).Draw(t, "steps")
 	for i := 0; i < k; i++ {
-		c.Steps = append(c.Steps, Step{Post: rapid.SampledFrom(postKinds).Draw(t, "post")})
+		c.Steps = append(c.Steps, genStep(t))
 	}
 	n := rapid.IntRange(2, 6).Draw(t, "shots")
 	for j := 0; j < n; j++ {
@@ -53,7 +86,7 @@ func genScen(t *rapid.T) ScenCase {
 
 // responses the extractors cannot digest, on top of the transport-level misbehaviour
 func genScenBeh(t *rapid.T) Beh {
-	switch rapid.IntRange(0, 9).Draw(t, "scenBeh") {
+	switch rapid.IntRange(0, 11).Draw(t, "scenBeh") {
 	case 0:
 		return Beh{Kind: "ok", Body: "{this is not json"}
 	case 1:
@@ -66,6 +99,9 @@ func genScenBeh(t *rapid.T) Beh {
 		return Beh{Kind: "ok", Body: `{"other": 1}`, Header: map[string]string{"Content-Type": "text/plain"}}
 	case 5:
 		return Beh{Kind: "ok", Body: "null"}
+	case 6, 7:
+		// a header value of any length up to a bit more than the usual one
+		return Beh{Kind: "ok", Header: map[string]string{"X-Token": rapid.StringOfN(rapid.RuneFrom([]rune("abcXYZ019-_")), 0, 20, -1).Draw(t, "token")}}
 	default:
 		return genBeh(t, false)
 	}
@@ -84,7 +120,21 @@ func scenarioYAML(c ScenCase) string {
 		case "header":
 			sb.WriteString("    postprocessors:\n      - type: var/header\n        mapping:\n          ct: Content-Type|upper\n          tok: X-Token\n")
 		case "header_substr":
-			sb.WriteString("    postprocessors:\n      - type: var/header\n        mapping:\n          tok: X-Token|lower|substr(6)\n          tok2: X-Token|substr(2,5)\n")
+			if len(s.Substr) == 0 {
+				sb.WriteString("    postprocessors:\n      - type: var/header\n        mapping:\n          tok: X-Token|lower|substr(6)\n          tok2: X-Token|substr(2,5)\n")
+				break
+			}
+			sb.WriteString("    postprocessors:\n      - type: var/header\n        mapping:\n")
+			for m, args := range s.Substr {
+				mod := fmt.Sprintf("substr(%d)", args[0])
+				if len(args) > 1 {
+					mod = fmt.Sprintf("substr(%d,%d)", args[0], args[1])
+				}
+				if m == 1 {
+					mod = "lower|" + mod
+				}
+				fmt.Fprintf(&sb, "          tok%d: \"X-Token|%s\"\n", m, mod)
+			}
 		case "assert":
 			sb.WriteString("    postprocessors:\n      - type: assert/response\n        headers:\n          Content-Type: json\n        body:\n          - key\n        status_code: 200\n")
 		}
@@ -187,13 +237,43 @@ func checkScen(c ScenCase, o *vf.Obs) error {
 			}
 		}
 	}
-	for _, st := range c.Steps {
+	for i, st := range c.Steps {
 		o.Class("post_" + st.Post)
+		neg, beyond := substrClasses(c, i)
+		o.ClassIf(neg, "substr_negative_index")
+		o.ClassIf(beyond, "substr_negative_index_beyond_value")
 	}
 	if mis > 0 && goodAfter {
 		o.NonTrivial()
 	}
 	return nil
+}
+
+// substrClasses: does step i extract with a negative substr() index, and was one of them applied to a (non-empty)
+// header value shorter than its magnitude.
+func substrClasses(c ScenCase, i int) (neg, beyond bool) {
+	vals := []string{goodToken} // the last invocation is always answered well
+	for _, sh := range c.Shots {
+		if sh.MisStep == i && sh.Beh.Kind == "ok" {
+			if v, ok := sh.Beh.Header["X-Token"]; ok && v != "" {
+				vals = append(vals, v)
+			}
+		}
+	}
+	for _, args := range c.Steps[i].Substr {
+		for _, a := range args {
+			if a >= 0 {
+				continue
+			}
+			neg = true
+			for _, v := range vals {
+				if -a > len(v) {
+					beyond = true
+				}
+			}
+		}
+	}
+	return neg, beyond
 }
 
 func TestScenarioGun(t *testing.T) {
